@@ -155,6 +155,10 @@ func c11CountSweep(w *h.W) {
 		{"f(_)", "f(_)", "f(1)"},
 		{"A-a", "B-b", "C-a"},
 		{"[_|x]", "[_|y]", "\"ab\"", "[a, b]"},
+		// witnesses that hold '$VAR'(N) as ordinary data next to witnesses with variables in those places
+		{"'$VAR'(0)", "_", "'$VAR'(0)", "'$VAR'(1)"},
+		{"f('$VAR'(0), '$VAR'(1))", "f(_, _)", "f(A, A)", "f('$VAR'(1), '$VAR'(0))"},
+		{"'_G1'", "_", "'_'", "'A'"},
 	}
 	maxN := w.Pick(80, 200)
 	for pi, pat := range patterns {
@@ -201,7 +205,7 @@ var _ = ref.Nil
 func init() {
 	h.Register(&h.Check{
 		ID: "C11",
-		Rule: "all fact bases t(Index, Y, Z) of <= N facts whose witness arguments range over {a, b, A, B, f(A)} (clause-local variables: ground, partially bound, variant and non-variant witnesses, duplicates) x {findall, bagof, setof} x 5 templates x 3 goal shapes (plain, disjunctive, filtered) x every ^-quantification of {Y, Z} (incl. nested and compound) x 5 instance arguments (unbound, [], partial lists) + 12 nested / pre-bound / aliased-quantifier queries; (b) representations: all sequences of 2..3 (4) facts whose witness is one of 20 constructions of the same and of neighbouring lists (ASCII and non-ASCII) (literal, double-quoted string, atom_chars/atom_codes output, append/findall output, string tail, nested in a compound) x 7 bagof/setof/findall queries; (c) a sweep of the number of solutions 0..80 (200; quick: every 4th size and all sizes around 64 and 128) for 5 cyclic witness patterns (ground, variants of each other, neighbours in standard order) x 5 queries. Non-trivial = the reference yields an answer or error; distinct = program + query text.",
+		Rule: "all fact bases t(Index, Y, Z) of <= N facts whose witness arguments range over {a, b, A, B, f(A)} (clause-local variables: ground, partially bound, variant and non-variant witnesses, duplicates) x {findall, bagof, setof} x 5 templates x 3 goal shapes (plain, disjunctive, filtered) x every ^-quantification of {Y, Z} (incl. nested and compound) x 5 instance arguments (unbound, [], partial lists) + 12 nested / pre-bound / aliased-quantifier queries; (b) representations: all sequences of 2..3 (4) facts whose witness is one of 20 constructions of the same and of neighbouring lists (ASCII and non-ASCII) (literal, double-quoted string, atom_chars/atom_codes output, append/findall output, string tail, nested in a compound) x 7 bagof/setof/findall queries; (c) a sweep of the number of solutions 0..80 (200; quick: every 4th size and all sizes around 64 and 128) for 8 cyclic witness patterns (ground, variants of each other, neighbours in standard order, '$VAR'(N) and variable-like atoms as data next to variables) x 5 queries. Non-trivial = the reference yields an answer or error; distinct = program + query text.",
 		Explanation: "state = one fact base in a fresh real interpreter; transition = one all-solutions query run to exhaustion; findall answers compared as sequences, bagof/setof answers (one per witness class) as a multiset since group order is unconstrained; the reference implements ISO 8.10 literally (free variables per 7.1.1.4, variant classes, witness unification, sort + dedupe for setof)",
 		Assumptions: []string{"reference ISO 8.10 algorithm in ref/solve (self-checked against the ISO examples)", "cases where a setof/3 result depends on the order of two distinct unbound variables are inconclusive"},
 		Work:        c11Work,
